@@ -93,7 +93,7 @@ func knownNonNilAt(fn *ssa.Function, p *ssa.BasicBlock, v ssa.Value) bool {
 		_ = t
 		return true
 	}
-	if nilGuardedBlockPlain(fn, p, v) {
+	if nilGuardedBlockPlain(fn, p, v) || resultNonNil(v, p) {
 		return true
 	}
 	// the i-th result of a call, on the side where the error that came with it is nil, for a module callee that never
